@@ -451,8 +451,9 @@ Inductive case :=
 | CUnq (name_txt : bytes) (dec : dres)
 (* fixTime: civil date before / after; inside says whether the instant was unchanged *)
 | CTime (ymd ymd' : Z * Z * Z) (same_instant : bool)
-(* TreeJSONBuilder: nodes; observed Finalize bytes or ordering error at index *)
-| CBuild (l : list (bytes * bytes)) (obs : option bytes)
+(* TreeJSONBuilder: nodes; observed Finalize bytes (None = ordering error), and what the real tree
+   iterator decodes from those bytes (names in order, or an error) *)
+| CBuild (l : list (bytes * bytes)) (obs : option bytes) (dec : ires)
 (* treeSaver.save: items; observed results of two runs with different completion orders *)
 | CSave (l : list item) (obs1 obs2 : sres)
 (* tree iterator *)
@@ -487,9 +488,9 @@ Definition check_C41 (c : case) : bool :=
   | CNode _ name target _ _ _ dec rest_equal => dres_eqb dec (DOk name target) && rest_equal
   | CUnq _ _ => true
   | CTime ymd ymd' same => if in_years ymd then zt_eqb ymd ymd' && same else in_years ymd'
-  | CBuild l obs =>
+  | CBuild l obs dec =>
     match obs with
-    | Some b => strictly_sorted [] (map fst l) && bytes_eqb b (render l)
+    | Some b => strictly_sorted [] (map fst l) && bytes_eqb b (render l) && ires_eqb dec (IOk (map fst l))
     | None => true
     end
   | CSave l o1 o2 =>
@@ -502,7 +503,7 @@ Definition check_C41 (c : case) : bool :=
   end.
 
 (* 0 ok; 1 model <> implementation; 2 oracle false (decoded node differs / time altered /
-   blob not sorted or not the canonical rendering / scheduling-dependent bytes) *)
+   blob not sorted, not the canonical rendering or not decoding to the inserted nodes / scheduling-dependent bytes) *)
 Definition check_case (c : case) : nat :=
   if check_C41 c then
     match c with
@@ -516,7 +517,7 @@ Definition check_case (c : case) : nat :=
       then 0 else 1
     | CUnq txt dec => if dres_eqb dec (dec_node txt [] None) then 0 else 1
     | CTime ymd ymd' _ => if zt_eqb (fix_time ymd) ymd' then 0 else 1
-    | CBuild l obs => if option_eqb bytes_eqb obs (build l) then 0 else 1
+    | CBuild l obs _ => if option_eqb bytes_eqb obs (build l) then 0 else 1
     | CSave l o1 _ => if sres_eqb o1 (save l) then 0 else 1
     | CIter ms obs => if ires_eqb obs (iter_nodes ms) then 0 else 1
     end
